@@ -166,7 +166,7 @@ class SSHConfig:
             else:
                 path = self._default_path
 
-            paths = list(p for p in path.glob(pattern) if p.is_file())
+            paths = sorted(p for p in path.glob(pattern) if p.is_file())
 
             if not paths:
                 logger.debug1(f'Config pattern "{pattern}" matched no files')
